@@ -151,7 +151,7 @@ def run(tier, v):
     gen_cfg = "AmmoProvider_gen_thorough.cfg" if thorough else "AmmoProvider_gen_quick.cfg"
     d = vlib.scratch()
     rpath = os.path.join(d, "randcells.ndjson")
-    vlib.write_ndjson(rpath, rand_cells(2500 if thorough else 240, 300 if thorough else 140, vlib.seed()))
+    vlib.write_ndjson(rpath, rand_cells(8000 if thorough else 240, 400 if thorough else 140, vlib.seed()))
 
     # 1. design level: exhaustive + negative controls; the case table (small jobs, run side by side)
     def one(job):
